@@ -16,7 +16,7 @@
      n_fin / n_created / n_started       ... that returned / were created / had task.start() called *)
 From Coq Require Import List Arith.
 Import ListNotations.
-From BQ Require Import rt.WorkerM rt.WorkerThm.
+From BQ Require Import rt.WorkerM rt.WorkerThm rt.WorkerLive.
 
 (* ---- D7 (finding) -------------------------------------------------------------------
    The code as it is: a RESULT handled between `box.dest_addr = ...` and `if box.ready` of
@@ -87,9 +87,24 @@ Theorem C07_wake_once : forall k s, reachable true k s ->
     (forall e, In e (w_errs w) -> e <> EAssertReady /\ e <> EAssertFresh).
 Proof. exact wake_once_atomic. Qed.
 
+(* ---- no lost wake-up (the worker-local half of deadlock freedom), atomic registration -----
+   On a worker in scope that logged no error, every started, unfinished task is either in the
+   ready queue or registered on a mailbox that exists, is NOT ready, names the task as its
+   dest_addr and is the task's desired mailbox: nobody sleeps on a mailbox whose results have
+   all arrived, and nobody sleeps unregistered.  (For the code as it is D7 breaks the wake-up
+   discipline, see C07_wake_once_refuted.) *)
+Theorem C07_no_deadlock_partial : forall k s, reachable true k s ->
+  forall w t, In w (s_workers s) -> w_oos w = false -> w_errs w = [] -> In t (w_tasks w) ->
+    In (t_addr t) (w_ready w) \/
+    exists m b, box_get m (w_boxes w) = Some b /\ b_dest b = Some (t_addr t) /\ b_ready b = false /\ t_desired t = Some m.
+Proof. exact no_lost_wakeup. Qed.
+
 (* ---- not proved: absence of deadlock --------------------------------------------------
-   Full statement kept visible.  It is evaluated by the harness oracle on every co-simulated
-   run of the real runtime (symptom `deadlock` / `no-result`), not proved in Coq. *)
+   Full statement kept visible.  Missing beyond C07_no_deadlock_partial, C07_task_conservation and
+   C07_result_deposited_once: the global descent (the child a sleeping task waits for is itself
+   unfinished, and bodies nest finitely).  The full statement is evaluated by the harness oracle on
+   every co-simulated run of the real runtime (symptom `deadlock` / `no-result`) and by the exhaustive
+   exploration of the model on small scenarios, not proved in Coq. *)
 Definition quiescent (s : sys) : Prop :=
   (forall q, In q (s_down s) -> q = []) /\
   (forall w, In w (s_workers s) -> w_out w = [] /\ w_delayed w = [] /\ w_ready w = [] /\ w_pc w = PBlocked).
@@ -147,4 +162,17 @@ Proof.
   - destruct (steps true (sys0 2) (firstn 13 ex_run_atomic)) as [s|] eqn:E; [|vm_compute in E; discriminate].
     vm_compute in E. injection E as <-.
     eexists. eexists. split; [reflexivity|]. split; [left; reflexivity|]. split; reflexivity.
+Qed.
+
+(* a state of the real run above in which the root sleeps on mailbox 0 (its map of two) *)
+Example C07_no_deadlock_partial_nonvacuous :
+  exists s w t, steps true (sys0 2) (firstn 14 ex_run_atomic) = Some s /\ In w (s_workers s) /\ w_oos w = false /\
+    w_errs w = [] /\ In t (w_tasks w) /\ t_addr t = ex_root_addr /\ w_ready w = [] /\
+    exists b, box_get 0 (w_boxes w) = Some b /\ b_dest b = Some ex_root_addr /\ b_ready b = false /\ t_desired t = Some 0.
+Proof.
+  destruct (steps true (sys0 2) (firstn 14 ex_run_atomic)) as [s|] eqn:E; [|vm_compute in E; discriminate].
+  vm_compute in E. injection E as <-.
+  eexists. eexists. eexists. split; [reflexivity|]. split; [right; left; reflexivity|]. split; [reflexivity|].
+  split; [reflexivity|]. split; [left; reflexivity|]. split; [reflexivity|]. split; [reflexivity|].
+  eexists. split; [reflexivity|]. split; [reflexivity|]. split; reflexivity.
 Qed.
